@@ -169,7 +169,9 @@ def lr_parse(world, p, w, raise_at, limit=None):
     except parglare.SyntaxError as e:
         r = ["SyntaxError", e.location.start_position]
     except parglare.DisambiguationError as e:
-        r = ["DisambiguationError", e.location.start_position]
+        # (the impl locates this error at the span of the last stack node, the model at the scanned
+        #  position: the kind is compared with the model, the impl's location with the fresh parser's)
+        r = ["DisambiguationError", None, e.location.start_position]
     except UserBoom:
         r = ["raised"]
     except BaseException as e:  # noqa
@@ -611,7 +613,7 @@ def model_lr_canon(o):
     if tag == 1:
         return ["SyntaxError", o[1]]
     if tag == 2:
-        return ["DisambiguationError", o[1]]
+        return ["DisambiguationError", None]
     if tag == 3:
         return ["raised"]
     if tag == 4:
@@ -686,7 +688,7 @@ def compare(ctx, r, cases, meta, outs, st):
                 elif k == "exc:Timeout" and mres == ["raised"] and e["raise_at"] is None:
                     st["lr_nonterminating"] += 1       # the LR driver loops (cyclic grammar): model out of fuel too
                     break
-                elif mres != ires:
+                elif mres != (ires[:2] if k == "DisambiguationError" else ires):
                     ctx.violation("LR parse on a used instance: impl %r, model %r" % (ires[:2], mres[:2]),
                                   dict(rep, impl=ires, model=mres), no_input=True, key="lr-diff")
                 if mo[1] != e["fields"]:
